@@ -684,8 +684,10 @@ Qed.
    LineRows::next_row on the real row and ConvertLineProgram::read_row on its private row, every instruction, the
    SetAddress / ConvertRow states, define_file, any bytes as the program).
    For every header LineProgramHeader::parse can return (hdr_ok; VLIW headers included), both build modes, every
-   program outside the F10 class (known_midseq = false) whose DW_LNE_set_address operands are below the reader's
-   tombstone values (addrs_below: < 2^(8*address_size) - 2): IF the reader's rows() runs to the end and the
+   program outside the F10 class (known_midseq = false) none of whose DW_LNE_set_address operands is the value -2
+   at the address size (addrs_below: operand <> 2^(8*address_size) - 2; the DWARF tombstone -1 IS inside the class:
+   reader and converter both drop such a sequence, rows and end_sequence, and restart — proved as the second mode of
+   the simulation, ConvertLineSim.tomb_stmt): IF the reader's rows() runs to the end and the
    converter's `while let Some(row) = read_row()?` runs to the end, THEN the events are exactly the reader's rows
    (ConvertLineSim.ev_match): erasing the SetAddress events, event k is row k; a Row event has
    address = (last SetAddress of the sequence, 0 if none) + address_offset, op_index, line, column, discriminator,
@@ -694,9 +696,12 @@ Qed.
    row only its end_sequence flag is claimed: the converter swallows the pending address of an empty sequence).
    With C13's meaning of a writer script (address = base + address_offset, other registers verbatim:
    LineWrSeqProofs.meaning) this is "writer script meaning = reader rows".
-   _partial because two clauses are missing: (1) sequences whose DW_LNE_set_address operand IS a tombstone value
-   (-1: skipped by both sides; -2: skipped by the reader only — the converted program carries the same operand and is
-   skipped again when read back) are outside the hypothesis and decided by c12.lineconv / c12.line only;
+   _partial because two clauses are missing: (1) a sequence whose DW_LNE_set_address operand is exactly -2
+   (gimli's reader treats -2 as a tombstone too, the converter only -1): the reader drops it, the converter KEEPS it
+   as a sequence headed by SetAddress(-2) — dropped again by the reader when the converted program is read back — and,
+   if it has no row, as a lone EndSequence(offset) whose address was swallowed (line_convert_tombstone_witnesses shows
+   all three behaviours on the model; c12.lineconv ties them); the general statement for that class (events = reader
+   rows + such ghost sequences) is not proved;
    (2) the last composition step rows(read(write(script))) = meaning(script) is C13's program_roundtrip_v2_v4 / _v5,
    whose hypothesis script_ok (offsets monotone and aligned: provable from line_convert_no_panic's invariant and
    line_convert_error_or_exact; operation advance < 2^64: the VLIW / C13 known findings) is not discharged here. *)
@@ -723,6 +728,22 @@ Example line_convert_sound_script_hyps : forall dbg,
     Some (LineRd.SEnd, [12289; 12294; 12315; 12315; 0; 3], LineRd.SEnd,
           [(0, 12288); (1, 1); (1, 6); (1, 27); (2, 27); (1, 0); (2, 3)]).
 Proof. exact ConvertLineSim.plain_witness. Qed.
+
+(* tombstone operands on the model: -1 is dropped by both sides (inside the theorem's class); -2 is dropped by the
+   reader and kept by the converter (outside); an empty -2 sequence leaves a lone EndSequence *)
+Theorem line_convert_tombstone_witnesses : forall dbg,
+  ConvertLineSim.addrs_below (ConvertLineSim.mtomb (ConvertLineSim.wit_tomb xff))
+    (fst (LineRd.insns_model dbg true (ConvertLineSim.wit_tomb xff))) = true /\
+  ConvertLine.known_midseq dbg true (ConvertLineSim.wit_tomb xff) = false /\
+  ConvertLineSim.tomb_summary dbg (ConvertLineSim.wit_tomb xff) =
+    Some (LineRd.SEnd, [12288; 12291], LineRd.SEnd, [(0, 12288); (1, 0); (2, 3)]) /\
+  ConvertLineSim.addrs_below (ConvertLineSim.mtomb (ConvertLineSim.wit_tomb xfe))
+    (fst (LineRd.insns_model dbg true (ConvertLineSim.wit_tomb xfe))) = false /\
+  ConvertLineSim.tomb_summary dbg (ConvertLineSim.wit_tomb xfe) =
+    Some (LineRd.SEnd, [12288; 12291], LineRd.SEnd,
+          [(0, 4294967294); (1, 1); (2, 6); (0, 12288); (1, 0); (2, 3)]) /\
+  ConvertLineSim.tomb_summary dbg ConvertLineSim.wit_tomb_empty = Some (LineRd.SEnd, [], LineRd.SEnd, [(2, 4)]).
+Proof. exact ConvertLineSim.tombstone_witnesses. Qed.
 
 (* the class predicate is exactly "outside F10 and below the tombstones" *)
 Theorem line_convert_plain_class : forall mt is moved,
@@ -767,3 +788,4 @@ Check line_convert_midseq_refuted. Check line_convert_vliw_refuted.
 Check line_convert_no_panic. Check line_convert_events_terminate. Check line_convert_new_ok.
 Check line_convert_define_file_safe.
 Check line_convert_sound_script_partial. Check line_convert_plain_class.
+Check line_convert_tombstone_witnesses.
